@@ -50,7 +50,7 @@ def run(tier):
             f0 = s["first_failures"][0]
             chk.violation("replay:%s:%s" % (fam, f0["mismatch"].split(":")[1].strip()[:40].replace(" ", "_")),
                           "real integrator / transformation deviates from Lattice.tla: " + f0["mismatch"], s["first_failures"])
-    if total_runs == 0:
+    if total_runs == 0 and not chk.violations:
         raise C.ToolError("no lattice case was replayed")
     chk.cov["exhaustive"] = True
     return chk.finish()
